@@ -647,7 +647,7 @@ pub fn items(prop: &str, tier: &str) -> Vec<Item> {
             ];
             // caller kinds: 0 = root with every capability, 1 = uid 1000 without capabilities, 2 = root of a fresh user namespace that
             // owns its mount and pid namespaces (rootless container: may mount a private procfs only if that is not "too revealing")
-            let who_name = |w: u8| match w { 0 => "root", 1 => "uid1000", _ => "usernsroot" };
+            let who_name = |w: u8| match w { 0 => "root", 1 => "uid1000", 3 => "root-after-euid1000", _ => "usernsroot" };
             // third component: kernel feature set {0: new mount API, 1: fsopen missing (open_tree clones of the host /proc), 2: neither}
             let mut cfgs: Vec<(u8, Option<&str>, u8)> = Vec::new();
             for who in [0u8, 1, 2] { for o in [None, Some("hidepid=1"), Some("hidepid=2"), Some("hidepid=ptraceable"), Some("subset=pid"), Some("hidepid=2,subset=pid")] {
@@ -657,12 +657,21 @@ pub fn items(prop: &str, tier: &str) -> Vec<Item> {
                 // a seccomp profile that allows the new mount API but predates faccessat2 (EPERM)
                 if who == 0 && matches!(o, None | Some("subset=pid")) { cfgs.push((who, o, 3)); }
             } }
+            // who 3 = root that did one lookup of a missing path while its effective uid was 1000 (no private mounts possible at
+            // that moment) and then switched back: whatever the library remembers from that lookup must not outlive it
+            cfgs.push((3, Some("subset=pid"), 0));
+            cfgs.push((3, None, 0));
             for (who, opts, mapi) in &cfgs {
                 let unpriv = &(*who == 1);
                 let mut scs: Vec<Scenario> = Vec::new();
                 for hk in ["new", "capi", "fromfd"] {
-                    for (base, sub, class) in &subs {
+                    // a foreign pid directory as the FINAL component: invisible (hence missing) for an unprivileged caller under hidepid=2
+                    let pid1_class = if *who == 1 && opts.map(|o| o.contains("hidepid=2")).unwrap_or(false) { "missing" } else { "existing" };
+                    let mut subs2 = subs.clone();
+                    subs2.push(("root", "1", pid1_class));
+                    for (base, sub, class) in &subs2 {
                         for opn in ["proc_open", "proc_readlink", "proc_open_follow"] {
+                            if *sub == "1" && opn == "proc_readlink" && *class == "existing" { continue; }
                             if hk == "capi" && opn == "proc_open_follow" { continue; }
                             if !th && opn == "proc_open_follow" && *class != "missing" && *sub != "mounts" { continue; }
                             let mut op = Op::new(opn).base(base).path(sub).flags(O_RDONLY | O_NONBLOCK);
@@ -810,6 +819,12 @@ fn spec_for(it: &Item, scen: &Scenario) -> OneShot {
         }
         os.warmup.push(Op::new("drop_root").root(&sib));
         os.warmup.push(Op::new("open_root_key").root(ROOT_IN));
+    }
+    if scen.name.starts_with("root-after-euid1000") {
+        os.warmup.push(Op::new("seteuid").num(1000));
+        os.warmup.push(Op::new("proc_open").procfs("new").base("root").path("nonexistent-while-unprivileged").flags(O_RDONLY));
+        os.warmup.push(Op::new("proc_open").capi().base("root").path("nonexistent-while-unprivileged").flags(O_RDONLY));
+        os.warmup.push(Op::new("seteuid").num(0));
     }
     if it.no_stdin { os.warmup.push(Op::new("close_stdin")); }
     if let Some(k) = it.fd_slack { os.warmup.push(Op::new("limit_fds").num(k)); }
